@@ -108,6 +108,40 @@ def run(ctx):
         mv = canon([r_node(x) for x in got], T)
         if mv != want:
             ctx.disagree('reduplicate', input=json.dumps(pat)[:1500], impl=repr(want)[:600], model=repr(mv)[:600])
+    # TIE-H: in real runs every round of simplifications is generated from a tree
+    import e2e
+    import e2ejobs
+    nruns = 60 if ctx.thorough else 14
+    jobs = []
+    for i in range(nruns):
+        j = e2ejobs.job(rng, strategy=['ddmin', 'hybrid', 'hierarchical', 'ddmin'][i % 4], jobs=rng.choice([1, 1, 2, 4]),
+                        size='small' if i % 2 else 'medium')
+        if i % 3 == 0:
+            # sharing simplifications: let substitution / variable elimination of leaves
+            j['text'] = ['(set-logic ALL)\n(declare-const a Int)\n(declare-const b Int)\n(declare-fun f (Int Int) Int)\n'
+                         '(assert (let ((x a)) (> (f x x) (f x b))))\n(assert (= b (f a a)))\n(assert (let ((y (f a b))) (= (f y y) y)))\n(check-sat)\n',
+                         # leaf-bound lets only: substitution shares one leaf object and keeps the expression count
+                         '(set-logic ALL)\n(declare-const a Int)\n(declare-const b Int)\n(declare-fun f (Int Int) Int)\n'
+                         '(assert (let ((x a)) (> (f x x) (f x b))))\n(assert (let ((z b)) (= (f z z) (f a z))))\n(check-sat)\n',
+                         '(set-logic ALL)\n(declare-const a Int)\n(declare-const b Int)\n(declare-fun f (Int Int) Int)\n'
+                         '(assert (= a b))\n(assert (> (f a a) (f a b)))\n(assert (let ((z b)) (= (f z z) (f a z))))\n(check-sat)\n'][(i // 3) % 3]
+            j['cmd'] = [e2e.TOKPRED, 'all', 'f', 'let'] if i % 2 == 0 else [e2e.TOKPRED, 'all', 'f', rng.choice(['a', 'b'])]
+            j['opts'] = ['--strategy', ['ddmin', 'hybrid'][(i // 3) % 2], '-j', str(rng.choice([1, 1, 3]))]
+            # the sharing mutators in isolation (nothing else reshapes the terms first)
+            j['opts'] += [[], ['--disable-all', '--let-substitution'], ['--disable-all', '--eliminate-variables', '--let-substitution'],
+                          ['--disable-all', '--let-substitution', '--inline-functions']][(i // 3) % 4]
+        j['timeout'] = 120
+        jobs.append(j)
+    runs = e2e.run_many(jobs)
+    rounds = 0
+    for j, r in zip(jobs, runs):
+        evs = r.ev('producer', 'taskgen')
+        rounds += len(evs)
+        ctx.case(['run', j['text'], j['opts'], j['cmd'][1:]], len(evs) > 3)
+        for msg in e2e.analyse(r)['C13']:
+            ctx.violation('impl-violation', input=j['text'], options=j['opts'], command=j['cmd'], observed=msg,
+                          expected='every round of simplifications is generated from an input with pairwise distinct identities')
+    ctx.count('rounds observed in real runs', rounds)
     if ctx.thorough:
         shard = calls[:200:2]
         vm = model.vm_shard(shard, name='c13shard')
